@@ -1500,9 +1500,46 @@ class Engine:
                 return SChr(z3.If(c, za, zb))
         return self.vmerge(c, a, b)
 
+    def _tuple_has_sym(self, k):
+        return isinstance(k, tuple) and any(isinstance(x, Sym) or self._tuple_has_sym(x) for x in k)
+
+    def dict_key_guard(self, d, key):
+        """Tuple keys with symbolic components are hashed and compared *structurally* (identity of terms) by the Python
+        dict that backs SDict.  That is only right when no other key of the same shape can be equal to it without being
+        identical: otherwise the operation is outside the model (undecided), never a silent miss.  Found by seed C04-5
+        (a module-level cache keyed by (parity, zone index, YZ)): a second call's look-up missed the first call's entry
+        although the two symbolic keys could be equal, and the engine 'proved' an obligation that fails natively."""
+        if not isinstance(key, tuple):
+            return
+        ks = self._tuple_has_sym(key)
+        for k in d:
+            if not (isinstance(k, tuple) and len(k) == len(key)):
+                continue
+            if not (ks or self._tuple_has_sym(k)):
+                continue
+            if k is key:
+                continue
+            same, distinct = True, False
+            for x, y in zip(k, key):
+                if x is y:
+                    continue
+                xs = isinstance(x, (Sym, tuple)) or isinstance(y, (Sym, tuple))
+                if not xs and type(x) == type(y) and x == y:
+                    continue
+                same = False
+                if not xs and x != y:
+                    distinct = True
+                    break
+            if same or distinct:
+                continue
+            raise Unsupported("dictionary key with symbolic components may be equal to another key of the dictionary")
+
     def dict_get(self, obj, key, default, raise_on_missing):
         d = obj.d if isinstance(obj, SDict) else obj
         key = self.force(key)
+        if isinstance(key, tuple):
+            key = tuple(self.force(x) for x in key)
+        self.dict_key_guard(d, key)
         if isinstance(key, (SBool,)):
             key = self.to_int(key)
         if isinstance(key, SInt):
@@ -1805,6 +1842,9 @@ class Engine:
         if isinstance(container, (SDict, dict)):
             d = container.d if isinstance(container, SDict) else container
             item = self.force(item)
+            if isinstance(item, tuple):
+                item = tuple(self.force(x) for x in item)
+            self.dict_key_guard(d, item)
             if not isinstance(item, Sym):
                 try:
                     return item in d
@@ -2197,6 +2237,9 @@ class Engine:
                 idx = self.concretize_int(self.to_int(idx), "dict key")
             if isinstance(idx, Sym):
                 idx = self.concretize_key(obj, idx)
+            if isinstance(idx, tuple):
+                idx = tuple(self.force(x) for x in idx)
+            self.dict_key_guard(obj.d, idx)
             obj.d[idx] = v
             return
         if obj is None or is_num(obj) or self.is_strlike(obj) or isinstance(obj, tuple):
@@ -2233,6 +2276,7 @@ class Engine:
                 if isinstance(obj, SDict):
                     if isinstance(idx, Sym):
                         idx = self.concretize_key(obj, idx)
+                    self.dict_key_guard(obj.d, idx)
                     if idx not in obj.d:
                         raise PyExc("KeyError", repr(idx))
                     del obj.d[idx]
